@@ -85,6 +85,8 @@ pub fn child(name: &str, args: &[String]) -> Option<i32> {
         "c16one" => c16::child_one(args),
         "c18" => c18::child(args),
         "c15reload" => c15::child_reload(args),
+        "c05bg" => c05::child_bg(),
+        "c07bg" => c07::child_bg(),
         "c09zone" => c09::child_zone(),
         "c09sweep" => c09::child_sweep(),
         _ => return None,
